@@ -244,7 +244,14 @@ func (s *CallableStepSchema[StepData, InputType]) CallSignal(
 	signalID string,
 	input any,
 ) error {
+	signalHandler, ok := s.SignalHandlersValue[signalID]
+	if !ok {
+		// CallableSchema.CallSignal checks this before it gets here; a direct caller gets the same error.
+		return BadArgumentError{
+			Message: fmt.Sprintf("Invalid signal '%s' called for step '%s'", signalID, s.IDValue),
+		}
+	}
 	runningStepData := s.setupStepData(runID)
 	runningStepData.startedWG.Wait() // Wait for the step to start
-	return s.SignalHandlersValue[signalID].Call(ctx, runningStepData.initializedData, input)
+	return signalHandler.Call(ctx, runningStepData.initializedData, input)
 }
